@@ -551,6 +551,10 @@ impl<const N: usize> Live<N> {
     /// submission must be refused (the code panics in `set_buf`), never published with a truncated length.
     /// The case ends here.
     pub fn add_huge(&mut self, c: &mut Case) {
+        // one 4 GiB mapping at a time, whatever the number of worker threads (the harness runs under an
+        // address-space cap)
+        static ONE_AT_A_TIME: std::sync::Mutex<()> = std::sync::Mutex::new(());
+        let _guard = ONE_AT_A_TIME.lock().unwrap_or_else(|e| e.into_inner());
         let small = vec![1u8; 8];
         // zero pages are mapped lazily: the memory is never touched
         let mut huge = vec![0u8; (1usize << 32) + 16];
